@@ -66,6 +66,7 @@ func (q *queue[T]) Add(data T, configs ...JobConfigFunc) (EnqueuedJob, bool) {
 
 	// must precede Enqueue: once visible, the job may already be Processing or Closed
 	j.changeStatus(queued)
+	vhook("add.pre", j)
 	if ok := q.internalQueue.Enqueue(j); !ok {
 		vhook("add.enq", j, false)
 		j.Close()
@@ -86,6 +87,7 @@ func (q *queue[T]) AddAll(items []Item[T]) EnqueuedGroupJob {
 		j := groupJob.newJob(item.Data, loadJobConfigs(q.w.configs(), WithJobId(item.ID)))
 		// must precede Enqueue: once visible, the job may already be Processing or Closed
 		j.changeStatus(queued)
+		vhook("add.pre", j)
 		if ok := q.internalQueue.Enqueue(j); !ok {
 			vhook("add.enq", j, false)
 			j.Close()
@@ -132,6 +134,7 @@ func (q *errorQueue[T]) Add(data T, configs ...JobConfigFunc) (EnqueuedErrJob, b
 
 	// must precede Enqueue: once visible, the job may already be Processing or Closed
 	j.changeStatus(queued)
+	vhook("add.pre", j)
 	if ok := q.internalQueue.Enqueue(j); !ok {
 		vhook("add.enq", j, false)
 		j.Close()
@@ -152,6 +155,7 @@ func (q *errorQueue[T]) AddAll(items []Item[T]) EnqueuedErrGroupJob {
 		j := groupJob.newJob(item.Data, loadJobConfigs(q.w.configs(), WithJobId(item.ID)))
 		// must precede Enqueue: once visible, the job may already be Processing or Closed
 		j.changeStatus(queued)
+		vhook("add.pre", j)
 		if ok := q.internalQueue.Enqueue(j); !ok {
 			vhook("add.enq", j, false)
 			j.Close()
@@ -197,6 +201,7 @@ func (q *resultQueue[T, R]) Add(data T, configs ...JobConfigFunc) (EnqueuedResul
 
 	// must precede Enqueue: once visible, the job may already be Processing or Closed
 	j.changeStatus(queued)
+	vhook("add.pre", j)
 	if ok := q.internalQueue.Enqueue(j); !ok {
 		vhook("add.enq", j, false)
 		j.Close()
@@ -217,6 +222,7 @@ func (q *resultQueue[T, R]) AddAll(items []Item[T]) EnqueuedResultGroupJob[R] {
 		j := groupJob.newJob(item.Data, loadJobConfigs(q.w.configs(), WithJobId(item.ID)))
 		// must precede Enqueue: once visible, the job may already be Processing or Closed
 		j.changeStatus(queued)
+		vhook("add.pre", j)
 		if ok := q.internalQueue.Enqueue(j); !ok {
 			vhook("add.enq", j, false)
 			j.Close()
